@@ -220,7 +220,7 @@ def run(prop, tier):
         "known_findings_hit": seen_known,
         "components": hubutil.REAL_STUB,
     }
-    assumptions = ["interpreters run without -O (the library validates headers with assert)",
+    assumptions = ["four of five batches run the interpreter normally, every fifth with -O (assert statements compiled away)",
                    "the store builds altered objects with code.replace (3.8+) / the CodeType constructor (3.7); what CPython refuses to construct cannot reach the library",
                    "header = co_argcount, co_posonlyargcount, co_kwonlyargcount, co_nlocals, co_stacksize, co_flags, names, varnames, freevars, cellvars, filename, name, firstlineno"]
     hubutil.write_evidence(prop, tier, seed, "fault_enumeration", coverage, assumptions, wall, reported)
